@@ -53,6 +53,10 @@ def inputs(t, tier):
     yield ("mem", gen.rle_block(t, 5, [(False, True, False, True, False)]), {"mem": "f8"})
     if thorough or t != R.T_FORCE3D:
         yield ("big/n70000", gen.rle_block(t, 70000, [gen.big_mask()]), {})
+        m2 = list(gen.big_mask())
+        m2[0] = False
+        m2[69999] = False
+        yield ("big2/n70000", gen.rle_block(t, 70000, [gen.big_mask(), tuple(m2)], chans=[3, 1]), {})
 
 
 def _items(sp):
